@@ -485,8 +485,20 @@ func scriptedErr(kind int) error {
 	return errFill
 }
 
+// failLate as the call number: the filler starts failing with the first frame the
+// container renders on its way out (after its done branch was entered), e.g. an
+// output that goes away only after the work is finished.
+const failLate = 1 << 30
+
 func (f *failingFiller) Fill(w io.Writer, st decor.Statistics) error {
 	f.n++
+	if f.failAt == failLate {
+		if f.rr != nil && f.rr.hookOcc[hpServeDone].Load() > 0 {
+			f.rr.faultsReturned.Add(1)
+			return scriptedErr(f.kind)
+		}
+		return f.base.Fill(w, st)
+	}
 	if f.failAt > 0 && f.n >= f.failAt {
 		if f.rr != nil {
 			f.rr.faultsReturned.Add(1)
